@@ -1,1 +1,256 @@
-/-! C05 — property theorems (placeholder until the model exists). -/
+import EupsModel.Lemmas.ShellEmit
+/-! C05 — emitted shell commands reproduce the computed environment when sourced.  Property theorems only
+(model: `Model/ShellEmit.lean`, helper lemmas: `Lemmas/ShellEmit.lean`).
+
+Reading: `shEval base text` is what an sh-family shell started with the environment `base` exports after it has
+evaluated `text` (`none`: the text is outside the modelled fragment).  `emitText old new` is the text
+`";\n".join(cmds)` that `eups.app.setup` prints for `oldEnviron = old` and `os.environ = new` (sh dialect, no `-n`,
+no aliases).  `SameEnv a b`: equal as maps, i.e. every changed or new variable has its exact new value, every
+removed variable is gone and nothing else changed. -/
+namespace EupsModel.C05
+open EupsModel EupsModel.ShellEmit
+
+/-- **C05, full clause.**  For every caller's environment `old` and every computed environment `new` — names
+identifiers, the values eups has to write drawn from the claimed alphabet, none of the four `EUPS_*` variables the
+code refuses to unset disappearing — the shell that evaluates the emitted text ends with exactly `new`.  Nothing is
+assumed about the values of `old` or about unchanged values of `new`. -/
+theorem C05_roundtrip (old new : Env)
+    (hold : ∀ p ∈ old, isIdent p.1 = true) (hnew : ∀ p ∈ new, isIdent p.1 = true)
+    (hdict : (new.map (·.1)).Nodup)
+    (halpha : ∀ p ∈ new, old.get p.1 ≠ some p.2 → InAlphabet p.2)
+    (hprot : ∀ k, isProtected k = true → old.has k = true → new.has k = true) :
+    ∃ e, shEval old (emitText (OldEnv.ofEnv old) new) = some e ∧ SameEnv e new := by
+  have := roundtrip_tracks (OldEnv.ofEnv old) old new (tracks_ofEnv old) hold hnew hdict
+    (fun p hp hl => halpha p hp (by
+      intro hg; apply hl; rw [lookup_ofEnv, hg]; rfl)) hprot false
+  simpa using this
+
+/-- the same for the text as `print` writes it (with the final newline) -/
+theorem C05_roundtrip_printed (old new : Env)
+    (hold : ∀ p ∈ old, isIdent p.1 = true) (hnew : ∀ p ∈ new, isIdent p.1 = true)
+    (hdict : (new.map (·.1)).Nodup)
+    (halpha : ∀ p ∈ new, old.get p.1 ≠ some p.2 → InAlphabet p.2)
+    (hprot : ∀ k, isProtected k = true → old.has k = true → new.has k = true) :
+    ∃ e, shEval old (emitText (OldEnv.ofEnv old) new ++ [10]) = some e ∧ SameEnv e new := by
+  have := roundtrip_tracks (OldEnv.ofEnv old) old new (tracks_ofEnv old) hold hnew hdict
+    (fun p hp hl => halpha p hp (by
+      intro hg; apply hl; rw [lookup_ofEnv, hg]; rfl)) hprot true
+  simpa using this
+
+/-- Non-vacuity: a caller's environment with a value outside the alphabet that stays, a removed variable, a changed
+path with a blank and parentheses, a new empty variable, a new value with `;` and a newline. -/
+example :
+    let old : Env := [(Str.ofString "KEEP", Str.ofString "it's"), (Str.ofString "GONE", Str.ofString "1"),
+                      (Str.ofString "PATH", Str.ofString "/bin")]
+    let new : Env := [(Str.ofString "KEEP", Str.ofString "it's"), (Str.ofString "PATH", Str.ofString "/my prod (v1)/bin:/bin"),
+                      (Str.ofString "E", []), (Str.ofString "X", Str.ofString "a;b\nc")]
+    emitText (OldEnv.ofEnv old) new =
+        Str.ofString "export PATH='/my prod (v1)/bin:/bin';\nexport E=;\nexport X='a;b\nc';\nunset GONE" ∧
+      shEval old (emitText (OldEnv.ofEnv old) new) =
+        some [(Str.ofString "KEEP", Str.ofString "it's"), (Str.ofString "PATH", Str.ofString "/my prod (v1)/bin:/bin"),
+              (Str.ofString "E", []), (Str.ofString "X", Str.ofString "a;b\nc")] := by
+  decide
+
+/-- **`--force`, repaired tree (D9).**  After any sequence of table actions (`envSet`, `envPrepend`/`envAppend`,
+`envUnset`, each in its own direction, with or without `--force`) started from the caller's environment `base`,
+the emitted text evaluated *from `base`* yields the computed environment. -/
+theorem C05_force_roundtrip (acts : List Act) (base : Env)
+    (hbase : ∀ p ∈ base, isIdent p.1 = true)
+    (hnew : ∀ p ∈ (runActs false acts base).cur, isIdent p.1 = true)
+    (hdict : ((runActs false acts base).cur.map (·.1)).Nodup)
+    (halpha : ∀ p ∈ (runActs false acts base).cur,
+      (runActs false acts base).old.lookup p.1 ≠ some (some p.2) → InAlphabet p.2)
+    (hprot : ∀ k, isProtected k = true → base.has k = true → (runActs false acts base).cur.has k = true) :
+    ∃ e, shEval base (emitText (runActs false acts base).old (runActs false acts base).cur) = some e ∧
+      SameEnv e (runActs false acts base).cur := by
+  have := roundtrip_tracks _ base _ (tracks_runActs acts base) hbase hnew hdict halpha hprot false
+  simpa using this
+
+/-- Non-vacuity and the repaired behaviour on the D9 input: `unsetup --force` of a product that `envSet`s `A`. -/
+example :
+    let base : Env := [([65], [49])]
+    let s := runActs false [Act.envSet true false [65] [49]] base
+    s.cur = [] ∧ emitText s.old s.cur = Str.ofString "unset A" ∧ shEval base (emitText s.old s.cur) = some [] := by
+  decide
+
+/-- **D9, pinned tree (negation witness).**  With the pinned `execute_envSet` (`del oldEnviron[key]` in both
+directions) `unsetup --force` emits nothing for the variable it removed: the shell keeps `A`. -/
+theorem C05_force_unsetup_pinned_witness :
+    let base : Env := [([65], [49])]
+    let s := runActs true [Act.envSet true false [65] [49]] base
+    s.cur = [] ∧ emitText s.old s.cur = [] ∧ shEval base (emitText s.old s.cur) = some base := by
+  decide
+
+/-- **The quoting condition is necessary.**  Text without a single quote never gives a variable a value that
+contains one of the metacharacters: whatever an emitter writes unquoted, the shell does not read such a value
+back. -/
+theorem C05_unquoted_never_meta (env : Env) (text k v : Str)
+    (hq : ∀ c ∈ text, c ≠ 39) (hm : v.any isShMeta = true) (h0 : env.get k ≠ some v) :
+    ∀ e, shEval env text = some e → e.get k ≠ some v :=
+  unquoted_never_meta k v hm env text hq h0
+
+/-- In particular `export K=V` with an unquoted `V` over the alphabet that contains a metacharacter does not set
+`K` to `V` (it sets something else, or is outside the fragment). -/
+theorem C05_quote_needed (env : Env) (k v : Str) (hk : isIdent k = true) (hv : InAlphabet v)
+    (hm : v.any isShMeta = true) (h0 : env.get k ≠ some v) :
+    ∀ e, shEval env (sExport ++ [32] ++ k ++ [61] ++ v) = some e → e.get k ≠ some v := by
+  apply unquoted_never_meta k v hm env _ _ h0
+  intro c hc
+  simp only [List.mem_append, List.mem_singleton] at hc
+  rcases hc with ((((hc | hc) | hc) | hc) | hc)
+  · revert c; decide
+  · omega
+  · exact (safe_facts (ident_safe hk c hc)).1
+  · omega
+  · exact alpha_no_sq hv c hc
+
+/-- Non-vacuity of `C05_quote_needed`, and what actually happens: `export K=a b` sets `K=a`. -/
+example : shEval [] (Str.ofString "export K=a b") = some [(Str.ofString "K", Str.ofString "a")] := by decide
+example : shEval [] (Str.ofString "export K=a;b") = none := by decide
+example : emitVal (Str.ofString "a b") = Str.ofString "'a b'" := by decide
+
+/-- The emitter writes nothing for a variable whose value is unchanged, whatever that value is. -/
+theorem C05_unchanged_not_written (old : OldEnv) (k v : Str) (h : old.lookup k = some (some v)) :
+    setCmd? {} old (k, v) = none := by
+  simp [setCmd?, h]
+
+/-- **Removed aliases do not disturb the environment (repaired D27).**  The complete command list of an alias-free
+new state — exports, unsets, and an `unset -f NAME` for every alias that went away — evaluated from `old` yields
+exactly `new`, even when an alias shares its name with a variable. -/
+theorem C05_roundtrip_alias_removal (old new : Env) (oldAliases : List (Str × Option Str))
+    (hold : ∀ p ∈ old, isIdent p.1 = true) (hnew : ∀ p ∈ new, isIdent p.1 = true)
+    (hdict : (new.map (·.1)).Nodup)
+    (halpha : ∀ p ∈ new, old.get p.1 ≠ some p.2 → InAlphabet p.2)
+    (hprot : ∀ k, isProtected k = true → old.has k = true → new.has k = true)
+    (hal : ∀ p ∈ oldAliases, isIdent p.1 = true) :
+    ∃ cmds e, emit {} (OldEnv.ofEnv old) new [] oldAliases = some cmds ∧
+      shEval old (join cmds) = some e ∧ SameEnv e new := by
+  have hgoodv := emitVars_good (OldEnv.ofEnv old) old new (tracks_ofEnv old) hold hnew
+    (fun p hp hl => halpha p hp (by intro hg; apply hl; rw [lookup_ofEnv, hg]; rfl))
+  have hcm : emitCmds {} (OldEnv.ofEnv old) new [] oldAliases =
+      emitVarsOn {} (OldEnv.ofEnv old) new ++ oldAliases.map (fun p => Cmd.aliasDel p.1) := by
+    simp [emitCmds, emitVars, finalEnv, emitAliases_nil]
+  have hgood : ∀ c ∈ emitCmds {} (OldEnv.ofEnv old) new [] oldAliases, c.Good := by
+    intro c hc
+    rw [hcm] at hc
+    rcases List.mem_append.mp hc with h | h
+    · exact hgoodv c h
+    · obtain ⟨p, hp, rfl⟩ := List.mem_map.mp h
+      exact hal p hp
+  refine ⟨(emitCmds {} (OldEnv.ofEnv old) new [] oldAliases).map Cmd.text,
+    applyAll (emitCmds {} (OldEnv.ofEnv old) new [] oldAliases) old, ?_, ?_, ?_⟩
+  · unfold emit; exact mapM_render_default _
+  · have := shEval_join _ hgood false old
+    simpa using this
+  · rw [hcm, applyAll_append, applyAll_aliasDels]
+    exact emitVars_apply (OldEnv.ofEnv old) old new (tracks_ofEnv old) hdict hprot
+
+/-- **D27, pinned tree (negation witness):** the pinned emission `unset ll` for a removed alias `ll` removes the
+*variable* `ll`; the repaired `unset -f ll` leaves the environment alone. -/
+theorem C05_alias_removal_pinned_witness :
+    let env : Env := [(Str.ofString "ll", Str.ofString "x")]
+    shEval env (Str.ofString "unset ll") = some [] ∧ shEval env (Str.ofString "unset -f ll") = some env ∧
+      emit {} (OldEnv.ofEnv env) env [] [(Str.ofString "ll", none)] = some [Str.ofString "unset -f ll"] := by
+  decide
+
+/-- **`unsetup eups` (repaired D23).**  When eups itself is unset up, `app.setup` drops `EUPS_PATH`, `EUPS_PKGROOT`
+and `EUPS_SHELL` from the environment `new` that `Eups.setup` left (`finalEnv`), and no variable is protected.  The
+commands evaluated from the caller's environment yield exactly that final environment: in particular each of the
+three variables the caller had is unset, whether `Eups.setup` kept, changed or had already removed it. -/
+theorem C05_roundtrip_unsetup_eups (old new : Env)
+    (hold : ∀ p ∈ old, isIdent p.1 = true) (hnew : ∀ p ∈ finalEnv unsetupEups new, isIdent p.1 = true)
+    (hdict : ((finalEnv unsetupEups new).map (·.1)).Nodup)
+    (halpha : ∀ p ∈ finalEnv unsetupEups new, old.get p.1 ≠ some p.2 → InAlphabet p.2) :
+    ∃ cmds e, emit unsetupEups (OldEnv.ofEnv old) new [] [] = some cmds ∧
+      shEval old (join cmds) = some e ∧ SameEnv e (finalEnv unsetupEups new) := by
+  have hgood := emitVarsOn_good unsetupEups (OldEnv.ofEnv old) old (finalEnv unsetupEups new) (tracks_ofEnv old)
+    hold hnew (fun p hp hl => halpha p hp (by intro hg; apply hl; rw [lookup_ofEnv, hg]; rfl))
+  have hcm : emitCmds unsetupEups (OldEnv.ofEnv old) new [] [] =
+      emitVarsOn unsetupEups (OldEnv.ofEnv old) (finalEnv unsetupEups new) := by
+    simp [emitCmds, emitVars, emitAliases]
+  refine ⟨(emitCmds unsetupEups (OldEnv.ofEnv old) new [] []).map Cmd.text,
+    applyAll (emitCmds unsetupEups (OldEnv.ofEnv old) new [] []) old, ?_, ?_, ?_⟩
+  · unfold emit; exact mapM_render_unsetupEups _
+  · have hg' : ∀ c ∈ emitCmds unsetupEups (OldEnv.ofEnv old) new [] [], c.Good := by rw [hcm]; exact hgood
+    have := shEval_join (emitCmds unsetupEups (OldEnv.ofEnv old) new [] []) hg' false old
+    simpa using this
+  · rw [hcm]
+    exact emitVarsOn_apply unsetupEups rfl (OldEnv.ofEnv old) old _ (tracks_ofEnv old) hdict (Or.inl rfl)
+
+/-- the final environment of `unsetup eups` never holds one of the three variables -/
+theorem C05_unsetup_eups_drops (new : Env) :
+    (finalEnv unsetupEups new).has sEUPS_PATH = false ∧ (finalEnv unsetupEups new).has sEUPS_PKGROOT = false ∧
+      (finalEnv unsetupEups new).has sEUPS_SHELL = false := by
+  have h1 : sEUPS_PATH ≠ sEUPS_PKGROOT := by decide
+  have h2 : sEUPS_PATH ≠ sEUPS_SHELL := by decide
+  have h3 : sEUPS_PKGROOT ≠ sEUPS_SHELL := by decide
+  simp [finalEnv, unsetupEups, Env.has, Env.get_unset_same, Env.get_unset_other _ _ _ h1, Env.get_unset_other _ _ _ h2,
+    Env.get_unset_other _ _ _ h3]
+
+/-- Non-vacuity and the behaviours on the scenario `setup eups; unsetup eups` with the three variables in the
+caller's environment: the repaired order unsets all three; with the block between the two loops (pinned, D23) a
+variable created during the unsetup is exported and stays; with the block below both loops nothing is unset. -/
+example :
+    let old : Env := [(sEUPS_PATH, Str.ofString "/s"), (sEUPS_SHELL, Str.ofString "sh"), (Str.ofString "K", Str.ofString "k k")]
+    emit unsetupEups (OldEnv.ofEnv old) old [] [] =
+        some [Str.ofString "unset EUPS_PATH", Str.ofString "unset EUPS_SHELL"] ∧
+      shEval old (Str.ofString "unset EUPS_PATH;\nunset EUPS_SHELL") = some [(Str.ofString "K", Str.ofString "k k")] ∧
+      finalEnv unsetupEups old = [(Str.ofString "K", Str.ofString "k k")] ∧
+      -- the block below both loops: both loops see `old` unchanged and print nothing
+      (emitVarsOn unsetupEups (OldEnv.ofEnv old) old).map Cmd.text = [] := by
+  decide
+
+/-! ## the protected names are an exact-match set -/
+
+/-- `^EUPS_(DIR|PATH|PKGROOT|SHELL)$`: the four names themselves, or one of them followed by a final newline (Python's
+`$`), and nothing else -/
+theorem C05_protected_iff (k : Str) :
+    isProtected k = true ↔
+      k ∈ [sEUPS_DIR, sEUPS_PATH, sEUPS_PKGROOT, sEUPS_SHELL] ∨
+      k ∈ [sEUPS_DIR ++ [10], sEUPS_PATH ++ [10], sEUPS_PKGROOT ++ [10], sEUPS_SHELL ++ [10]] := by
+  simp only [isProtected, List.any_cons, List.any_nil, Bool.or_false, Bool.or_eq_true, beq_iff_eq, List.mem_cons,
+    List.not_mem_nil, or_false]
+  constructor
+  · rintro ((h | h) | (h | h) | (h | h) | (h | h)) <;> simp [h]
+  · rintro ((h | h | h | h) | (h | h | h | h)) <;> simp [h]
+
+/-- **For identifiers the protected set is exactly the four names**: a name that merely starts with, ends with or
+contains one of them is not protected. -/
+theorem C05_protected_exact (k : Str) (hk : isIdent k = true) :
+    isProtected k = true ↔ k = sEUPS_DIR ∨ k = sEUPS_PATH ∨ k = sEUPS_PKGROOT ∨ k = sEUPS_SHELL := by
+  rw [C05_protected_iff]
+  constructor
+  · rintro (h | h)
+    · simpa using h
+    · exfalso
+      have hs := ident_safe hk
+      simp only [List.mem_cons, List.not_mem_nil, or_false] at h
+      have h10 : (10 : Nat) ∈ k := by rcases h with h | h | h | h <;> (rw [h]; simp)
+      have := hs 10 h10
+      revert this; decide
+  · intro h; left; simpa using h
+
+/-- a variable of the caller's environment that is not one of the four names and has disappeared is unset -/
+theorem C05_unprotected_is_unset (new : Env) (k : Str) (v : Option Str) (hp : isProtected k = false)
+    (hgone : new.has k = false) : unsetCmd? {} new (k, v) = some (Cmd.unsetVar k) := by
+  simp [unsetCmd?, hp, hgone, hidden]
+
+/-- near misses of the protected names (the variables of products `eups_shelltools`, `eups_path`, saved copies, ...)
+are not protected; the four names are -/
+example :
+    (["EUPS_PATH_SAVED", "EUPS_PKGROOT_MIRROR", "EUPS_DIR_EXTRA", "EUPS_SHELLTOOLS_DIR", "SETUP_EUPS_SHELLTOOLS",
+      "MY_EUPS_PATH", "EUPS_DIRS", "EUPS_PAT", "EUPS_", "eups_path", "EUPS_PATH_DIR", "XEUPS_SHELL"].map
+        fun n => isProtected (Str.ofString n)) = List.replicate 12 false ∧
+      (["EUPS_DIR", "EUPS_PATH", "EUPS_PKGROOT", "EUPS_SHELL"].map fun n => isProtected (Str.ofString n)) =
+        List.replicate 4 true := by
+  decide
+
+/-- on the witness of the corpus: every near miss that disappeared is unset, the protected `EUPS_PKGROOT` is not -/
+example :
+    let old : Env := [(Str.ofString "EUPS_PATH", [47]), (Str.ofString "EUPS_PATH_SAVED", [47]),
+                      (Str.ofString "EUPS_SHELLTOOLS_DIR", [47]), (Str.ofString "EUPS_PKGROOT", [47])]
+    emit {} (OldEnv.ofEnv old) [(Str.ofString "EUPS_PATH", [47])] [] [] =
+      some [Str.ofString "unset EUPS_PATH_SAVED", Str.ofString "unset EUPS_SHELLTOOLS_DIR"] := by
+  decide
+
+end EupsModel.C05
